@@ -377,6 +377,11 @@ func (p *Path) floatBinop(op token.Token, x, y Value) Value {
 	if !p.realMode {
 		panic(unsupported("symbolic float64 arithmetic outside real mode"))
 	}
+	for _, v := range []Value{x, y} {
+		if f, ok := v.(float64); ok && (math.IsNaN(f) || math.IsInf(f, 0)) {
+			panic(unsupported("NaN/Inf combined with a symbolic float in real mode"))
+		}
+	}
 	tt := p.tt()
 	xt := p.toTerm(x, types.Typ[types.Float64])
 	yt := p.toTerm(y, types.Typ[types.Float64])
@@ -388,6 +393,17 @@ func (p *Path) floatBinop(op token.Token, x, y Value) Value {
 	case token.MUL:
 		return tt.RBin(OpRMul, xt, yt)
 	case token.QUO:
+		// IEEE semantics of division by zero, decided on the path: x/0 is NaN or +-Inf
+		zero := tt.RConstF(0)
+		if p.Decide(tt.Eq(yt, zero)) {
+			if p.Decide(tt.Eq(xt, zero)) {
+				return math.NaN()
+			}
+			if p.Decide(tt.Cmp(OpRLt, zero, xt)) {
+				return math.Inf(1)
+			}
+			return math.Inf(-1)
+		}
 		return tt.RBin(OpRDiv, xt, yt)
 	case token.LSS:
 		return termOrBool(tt.Cmp(OpRLt, xt, yt))
